@@ -61,6 +61,7 @@ type treeScn struct {
 	pert   *perturber
 	wgObs  sync.WaitGroup
 	wedged bool
+	hot    bool // shut down in the middle of the traffic: no barrier and no snapshots before the close
 }
 
 func (s *treeScn) mkFilter(name string) filter.Filter {
@@ -594,23 +595,25 @@ func (s *treeScn) guarded(what string, node int, fn func()) bool {
 func (s *treeScn) finish(root *tnode, how string, cancel context.CancelFunc) (stuck bool, leak int) {
 	tr := s.tr
 	ctl := s.ctl
-	ok := s.barrier("final")
-	if ok {
-		// confirmed by a second barrier: what the first one saw at rest is judged at the second
-		time.Sleep(2 * time.Millisecond)
-		ok = s.barrier("confirm")
-	}
-	// snapshots at quiescence
-	s.srv.LogSnapshot()
-	for _, n := range s.nodes {
-		if n.kind == "mon" {
-			continue
+	if !s.hot {
+		ok := s.barrier("final")
+		if ok {
+			// confirmed by a second barrier: what the first one saw at rest is judged at the second
+			time.Sleep(2 * time.Millisecond)
+			ok = s.barrier("confirm")
 		}
-		l, lok := s.listOf(n.cache)
-		tr.LogRaw(n.stage, "snap", fmt.Sprintf(`"list":%s,"ok":%v,"node":%d,"quiet":%v,"closed":%v`, l, lok, n.id, ok, n.closed))
-	}
-	for _, n := range s.nodes {
-		s.drain(n)
+		// snapshots at quiescence
+		s.srv.LogSnapshot()
+		for _, n := range s.nodes {
+			if n.kind == "mon" {
+				continue
+			}
+			l, lok := s.listOf(n.cache)
+			tr.LogRaw(n.stage, "snap", fmt.Sprintf(`"list":%s,"ok":%v,"node":%d,"quiet":%v,"closed":%v`, l, lok, n.id, ok, n.closed))
+		}
+		for _, n := range s.nodes {
+			s.drain(n)
+		}
 	}
 	// shut everything down through the root and check termination
 	tr.LogRaw("drv", "call.close", fmt.Sprintf(`"node":0,"stage":%q,"how":%q`, root.stage, how))
